@@ -4,11 +4,91 @@
 package c04
 
 import (
+	"fmt"
+	"sort"
 	"time"
+
+	"github.com/flant/shell-operator/pkg/utils/exponential_backoff"
 
 	"verifharness/internal/core"
 	"verifharness/internal/opsim"
 )
+
+// Input is either an operator scenario or a call of CalculateDelayWithMax.
+type Input struct {
+	Scenario *opsim.Scenario `json:"scenario,omitempty"`
+	Delay    *DelayIn        `json:"delay,omitempty"`
+	Acts     []opsim.Action  `json:"acts,omitempty"` // shrink key: mirrors Scenario.Acts
+}
+type DelayIn struct {
+	InitialNs int64 `json:"initial_ns"`
+	MaxNs     int64 `json:"max_ns"`
+	Retry     int   `json:"retry"`
+	Calls     int   `json:"calls"`
+}
+type Obs struct {
+	Trace  *opsim.Trace `json:"trace,omitempty"`
+	Delays []int64      `json:"delays,omitempty"` // distinct returned values, sorted
+}
+
+func Run(in Input) Obs {
+	if in.Delay != nil {
+		seen := map[int64]bool{}
+		for i := 0; i < in.Delay.Calls; i++ {
+			d := exponential_backoff.CalculateDelayWithMax(time.Duration(in.Delay.InitialNs), time.Duration(in.Delay.MaxNs), in.Delay.Retry)
+			seen[int64(d)] = true
+		}
+		var ds []int64
+		for d := range seen {
+			ds = append(ds, d)
+		}
+		sort.Slice(ds, func(i, j int) bool { return ds[i] < ds[j] })
+		return Obs{Delays: ds}
+	}
+	sc := *in.Scenario
+	if len(in.Acts) > 0 {
+		sc.Acts = in.Acts
+	}
+	tr := opsim.RunScenario(sc)
+	return Obs{Trace: &tr}
+}
+
+func Render(in Input, obs *Obs, crash string) core.Case {
+	if in.Delay != nil {
+		var ds []int64
+		if obs != nil {
+			ds = obs.Delays
+		}
+		if crash != "" {
+			ds = []int64{-1}
+		}
+		c := core.Case{}
+		c.Coq = fmt.Sprintf("CDelay %s %s %s %s", core.CoqZ(in.Delay.InitialNs), core.CoqZ(in.Delay.MaxNs), core.CoqZ(int64(in.Delay.Retry)), core.CoqList(ds, core.CoqZ))
+		c.JSON = map[string]any{"delays": ds, "crash": crash}
+		c.Key = c.Coq
+		c.Nontrivial = len(ds) >= 1 && in.Delay.Retry >= 1
+		c.Tags = []string{"delay", fmt.Sprintf("retry:%d", in.Delay.Retry)}
+		return c
+	}
+	sc := *in.Scenario
+	var tr *opsim.Trace
+	if obs != nil {
+		tr = obs.Trace
+	}
+	c := opsim.Render(sc, tr, crash)
+	c.Coq = "COp " + c.Coq
+	return c
+}
+
+func Explicit(in Input, obs *Obs) Input {
+	if in.Delay != nil || obs == nil || obs.Trace == nil {
+		return in
+	}
+	sc := opsim.ExplicitInput(*in.Scenario, obs.Trace)
+	acts := sc.Acts
+	sc.Acts = nil
+	return Input{Scenario: &sc, Acts: acts}
+}
 
 var profile = opsim.Profile{Name: "c04", MaxHooks: 3, Steps: 30, PFail: 50, PHold: 25, V0: false}
 
@@ -28,10 +108,21 @@ func Corpus() []opsim.Scenario {
 	}
 }
 
-func Gen(r *core.Rng, tier string) ([]core.In[opsim.Scenario], bool) {
-	var ins []core.In[opsim.Scenario]
+func Gen(r *core.Rng, tier string) ([]core.In[Input], bool) {
+	var ins []core.In[Input]
 	for _, sc := range Corpus() {
-		ins = append(ins, core.In[opsim.Scenario]{Input: sc, Stream: "corpus"})
+		sc := sc
+		ins = append(ins, core.In[Input]{Input: Input{Scenario: &sc}, Stream: "corpus"})
+	}
+	// CalculateDelayWithMax: every retry count 0..8 for several (initial, max)
+	calls := 300
+	if tier == "thorough" {
+		calls = 5000
+	}
+	for _, im := range [][2]int64{{5e9, 32e9}, {0, 32e9}, {1e9, 32e9}, {25e8, 10e9}, {32e9, 32e9}, {123456789, 7e9}} {
+		for retry := 0; retry <= 8; retry++ {
+			ins = append(ins, core.In[Input]{Input: Input{Delay: &DelayIn{InitialNs: im[0], MaxNs: im[1], Retry: retry, Calls: calls}}, Stream: "delay"})
+		}
 	}
 	n := 60
 	switch tier {
@@ -42,17 +133,17 @@ func Gen(r *core.Rng, tier string) ([]core.In[opsim.Scenario], bool) {
 	}
 	for i := 0; i < n; i++ {
 		sc := opsim.Scenario{Cfg: opsim.GenConfig(r, profile), Seed: int64(r.Next() >> 1), Steps: 10 + r.Intn(profile.Steps), Profile: "c04"}
-		ins = append(ins, core.In[opsim.Scenario]{Input: sc, Stream: "random"})
+		ins = append(ins, core.In[Input]{Input: Input{Scenario: &sc}, Stream: "random"})
 	}
 	return ins, false
 }
 
-var Driver = core.Driver[opsim.Scenario, opsim.Trace]{
-	Spec: core.Spec{Property: "C04", Imports: []string{"Op_Model", "Op_Corr", "C04_Spec", "C04_Corr"}, Corr: "C04_Corr", ShrinkKey: "acts",
-		Rule: "operator-level scenarios (see C03) with 50% failing executions, mixed allowFailure, tasks combined while a queue is busy; non-trivial = >=4 actions of >=2 kinds with >=2 executions; distinct = distinct (config, action list)"},
+var Driver = core.Driver[Input, Obs]{
+	Spec: core.Spec{Property: "C04", Imports: []string{"Op_Model", "Op_Corr", "C04_Spec", "C04_Delay", "C04_Corr"}, Corr: "C04_Corr", ShrinkKey: "acts",
+		Rule: "operator-level scenarios (see C03) with 50% failing executions, mixed allowFailure, tasks combined while a queue is busy; non-trivial = >=4 actions of >=2 kinds with >=2 executions; distinct = distinct (config, action list); plus a 'delay' stream: CalculateDelayWithMax called repeatedly for 6 (initial,max) pairs x retry 0..8, every returned value must be one the integer model can produce and >= initial"},
 	Gen:      Gen,
-	Run:      opsim.RunScenario,
-	Render:   func(in opsim.Scenario, obs *opsim.Trace, crash string) core.Case { return opsim.Render(in, obs, crash) },
-	Explicit: opsim.ExplicitInput,
+	Run:      Run,
+	Render:   Render,
+	Explicit: Explicit,
 	PerShard: 40, Workers: 8, CaseTimout: 30 * time.Second,
 }
